@@ -599,8 +599,8 @@ def run(res):
     thorough = res.tier == "thorough"
     bins = core.build([VARIANT])
     rng = core.rng_for(res.seed, "c04")
-    progs = [p for p in tw.corpus_programs(res.seed, 1500 if thorough else 120) if len(p[1]) < 50000] + tw.generated_programs(res.seed, 12000 if thorough else 1500)
-    progs += [("sig:%d" % i, s) for i, s in enumerate(generated_signatures(rng, 4000 if thorough else 600))]
+    progs = [p for p in tw.corpus_programs(res.seed, 1500 if thorough else 120) if len(p[1]) < 50000] + tw.generated_programs(res.seed, 12000 if thorough else 4000)
+    progs += [("sig:%d" % i, s) for i, s in enumerate(generated_signatures(rng, 4000 if thorough else 1500))]
     items = [("prog", tag, text, res.seed) for tag, text in progs]
     items += [("site", "enum:%d" % i, s, res.seed) for i, s in enumerate(enumerated(rng))]
     parts = core.pmap(_work, tw.batches(items, 25), init=tw.init_state, initargs=(bins,))
